@@ -2,10 +2,11 @@
 which trace spec validates their events."""
 import json
 import os
+import re
 import subprocess
 import sys
 
-from vlib import (VERIF, Check, ToolError, TRUSTED, build_harness, log, run_driver, tlc_mc, tlc_trace,
+from vlib import (VERIF, Check, ToolError, TRUSTED, build_harness, log, run_driver, tlc_mc, tlc_simulate, tlc_trace,
                   workdir)
 
 REGISTRY = {}
@@ -463,4 +464,62 @@ def c16(a):
               "(optional / wrong / re-cased weekday, 2-3-4 digit years, missing seconds, obsolete and unknown zone names, "
               "blank runs, out-of-range fields) are read by the independent reader Rd2822 and jiff must agree or refuse.")
     c.assumptions = TRUSTED + ["the global tz database (system zoneinfo) for %Q round trips"]
+    return c.finish()
+
+
+def _hist(out):
+    """JSON payloads of the <<"HIST", "...">> lines TLC printed."""
+    pat = re.compile(r'^<<"HIST", (".*")>>\s*$')
+    return [json.loads(json.loads(m.group(1))) for m in (pat.match(l) for l in out.splitlines()) if m]
+
+
+@prop("C17")
+def c17(a):
+    c = Check("C17", a.tier, a.seed, level="exploration")
+    wd = workdir("C17")
+    binary = build_harness()
+    extra = []
+    if not a.replay:
+        # Engine B: TLC enumerates every one-step mutation plan and samples three-step plans
+        r = tlc_mc("Mutate.tla", "MC_Mutate1.cfg", os.path.join(wd, "mc"), workers=1)
+        c.add_mc(r)
+        plans = _hist(r["out"])
+        if len(plans) != 504:
+            raise ToolError(f"Mutate.tla: expected 504 one-step plans, got {len(plans)}")
+        sims = tlc_simulate("Mutate.tla", "MC_Mutate3.cfg", os.path.join(wd, "sim"), num=40 if a.tier == "quick" else 600,
+                            depth=4, seed=a.seed + 1)
+        seen, want = set(), (400 if a.tier == "quick" else 6000)
+        for s in sims:
+            s = json.loads(s) if isinstance(s, str) else s
+            key = json.dumps(s)
+            if len(s) == 3 and key not in seen and len(seen) < want:
+                seen.add(key)
+                plans.append(s)
+        pf = os.path.join(wd, "plans.json")
+        with open(pf, "w") as f:
+            json.dump(plans, f)
+        extra = ["--plans", pf, "--zones", compile_zones("C17")]
+    try:
+        drive_and_validate(c, a, binary, "c17", "Trace_Parse.tla", extra=extra)
+    except ToolError:
+        hang = os.path.join(wd, "c17", "c17.hang.json")
+        if os.path.exists(hang):
+            ev = json.load(open(hang))
+            c.mismatch("parser did not terminate (no progress for 20 s)", ev)
+        else:
+            raise
+    c.rule = ("22 parser entry points (Temporal zoned/timestamp/datetime/date/time/pieces/time-zone/span/duration, friendly "
+              "span/duration, RFC 2822 zoned/timestamp, FromStr of the seven public types, TimeZone::posix, strptime with "
+              "format and text both mutated) on: a corpus of valid texts of every family (each under every parser); every "
+              "one-step mutation plan enumerated by TLC from Mutate.tla (14 operators x 9 positions x 4 variants = 504) and "
+              "TLC-sampled three-step plans; seeded 1..6-step plans; random bytes and random strings over the family's "
+              "alphabet; 8 KiB..256 KiB inputs (runs of digits, blanks, letters, signs, parentheses, 0xFF, repeated valid "
+              "text) with a time bound per KiB. TimeZone::tzif on real, bundled and synthetic TZif files under structure-aware "
+              "mutation (header counts, transition times, order, type indices, offsets, designation indices, truncation, "
+              "hostile footers, versions, bit flips, block duplication) and TLC plans; every accepted zone is queried at 300+ "
+              "instants, 4 civil datetimes and iterated 3000 steps in both directions. Trace_Parse.tla decides: never a "
+              "panic or hang, Ok values inside the documented range (recomputed from Calendar/Instant/CivilArith), print + "
+              "re-parse equal, accepted zones answer with in-range offsets and strictly ordered transitions, jiff and its "
+              "jiff-static copy accept the same TZif data.")
+    c.assumptions = TRUSTED + ["wall-clock timing for the proportional-work bound (5 ms per KiB)", "exploration, not exhaustive: inputs are sampled"]
     return c.finish()
